@@ -31,6 +31,10 @@ package trie
 //@ define from_of(st *SlimTrie, t int) = ite(t < nB(st), 257*t, 240*nB(st) + 17*t + (nS(st)-17)*rank1(st.inner.ShortBM.Words, t))
 //@ define size_of(st *SlimTrie, t int) = ite(t < nB(st), 257, ite(is_short(st, t), nS(st), 17))
 
+//@ define scode(st *SlimTrie, t int) = ite(from_of(st, t)%64 <= 64 - nS(st),
+//@     (INW(st)[from_of(st, t)/64] >> (from_of(st, t)%64)) & mask(nS(st)),
+//@     (INW(st)[from_of(st, t)/64] >> (from_of(st, t)%64)) | ((INW(st)[from_of(st, t)/64 + 1] << (64 - from_of(st, t)%64)) & mask(nS(st))))
+
 //@ predicate wf_r64(b *Bitmap) = b != nil && idx_r64(b.Words, b.RankIndex)
 //@ predicate wf_r128(b *Bitmap) = b != nil && idx_r128(b.Words, b.RankIndex)
 //@ predicate wf_sel(b *Bitmap) = b != nil && sel_indexed(b.Words, b.SelectIndex, b.RankIndex)
@@ -51,6 +55,23 @@ package trie
 //@     && forall(t, 0, nI(st), 0 <= from_of(st, t) && from_of(st, t) + size_of(st, t) <= 64*len(INW(st)), at)
 //@     && forall(t, 0, nI(st), t < nB(st) ==> !is_short(st, t), at)
 //@     && forall(t, 0, nI(st), is_short(st, t) ==> nS(st) >= 1, at)
+//@     && forall(id, 0, nN(st), bitat(NTW(st), id) == 0 ==> id - rank1(NTW(st), id) < nN(st) - nI(st), at)
+//@     && forall(id, 0, nN(st), bitat(NTW(st), id) == 1 ==> rank1(INW(st), from_of(st, rank1(NTW(st), id))) >= id, at)
+//@     && forall(t, 0, nI(st), is_short(st, t) ==> rank1(INW(st), from_of(st, t)) + popcnt64(u64(st.inner.ShortTable[int(scode(st, t))])) < nN(st), at)
+
+//@ define LPP(st *SlimTrie) = st.inner.LeafPrefixes.PresenceBM.Words
+//@ define nL(st *SlimTrie) = nN(st) - nI(st)
+
+//@ predicate wf_lprefix(st *SlimTrie) = st.inner.LeafPrefixes == nil || (wf_r64(st.inner.LeafPrefixes.PresenceBM)
+//@     && nL(st) <= 64*len(LPP(st)) && len(st.inner.LeafPrefixes.Bytes) <= 100000000
+//@     && wf_pos(st.inner.LeafPrefixes.PositionBM, ones(LPP(st)), st.inner.LeafPrefixes.Bytes))
+
+//@ predicate wf_vlen(va *VLenArray) = va != nil && wf_r64(va.PresenceBM) && 0 <= va.N && int(va.N) <= 64*len(va.PresenceBM.Words)
+//@     && len(va.Bytes) <= 1000000000
+//@     && (va.PositionBM == nil ==> 0 <= va.FixedSize && ones(va.PresenceBM.Words) * int(va.FixedSize) <= len(va.Bytes))
+//@     && (va.PositionBM != nil ==> wf_pos(va.PositionBM, ones(va.PresenceBM.Words), va.Bytes))
+
+//@ predicate wf_leaves(st *SlimTrie) = st.inner.Leaves == nil || (wf_vlen(st.inner.Leaves) && int(st.inner.Leaves.N) == nL(st))
 
 //@ predicate wf_iprefix(st *SlimTrie) = st.inner.InnerPrefixes != nil
 //@     && (st.inner.InnerPrefixes.EltCnt > 0 ==> wf_r128(st.inner.InnerPrefixes.PresenceBM)
@@ -58,7 +79,9 @@ package trie
 //@          && ones(st.inner.InnerPrefixes.PresenceBM.Words) == int(st.inner.InnerPrefixes.EltCnt)
 //@          && (st.inner.InnerPrefixes.PositionBM == nil ==> len(st.inner.InnerPrefixes.Bytes) == 2*int(st.inner.InnerPrefixes.EltCnt))
 //@          && (st.inner.InnerPrefixes.PositionBM != nil ==> wf_pos(st.inner.InnerPrefixes.PositionBM, int(st.inner.InnerPrefixes.EltCnt), st.inner.InnerPrefixes.Bytes)
-//@                && len(st.inner.InnerPrefixes.Bytes) <= 100000000))
+//@                && len(st.inner.InnerPrefixes.Bytes) <= 100000000
+//@                && forall(k, 0, int(st.inner.InnerPrefixes.EltCnt), bitstr_len(st.inner.InnerPrefixes.Bytes[
+//@                       select1(st.inner.InnerPrefixes.PositionBM.Words, k) : select1(st.inner.InnerPrefixes.PositionBM.Words, k+1)]) % 4 == 0, at)))
 
 // ---------------------------------------------------------------------------
 // query primitives
@@ -84,11 +107,47 @@ package trie
 //@   ensures result == decstep(bs, 0)
 //@   ensures 0 <= result && result <= 262140 && result%4 == 0
 
+//@ define leaf_ord(st *SlimTrie, id int) = id - rank1(NTW(st), id)
+//@ define has_tail(st *SlimTrie, l int) = st.inner.LeafPrefixes != nil && bitat(LPP(st), l) == 1
+//@ define tail_lo(st *SlimTrie, l int) = select1(st.inner.LeafPrefixes.PositionBM.Words, rank1(LPP(st), l))
+//@ define tail_hi(st *SlimTrie, l int) = select1(st.inner.LeafPrefixes.PositionBM.Words, rank1(LPP(st), l) + 1)
+
+//@ func (*SlimTrie).getLeafPrefix
+//@   property C01 C03 C10
+//@   requires wf_core(st) && wf_lprefix(st) && qr != nil
+//@   requires 0 <= nodeid && int(nodeid) < nN(st) && bitat(NTW(st), nodeid) == 0
+//@   modifies qr.ithLeaf, qr.hasLeafPrefix, qr.leafPrefix
+//@   use rank1_range(NTW(st), int(nodeid))
+//@   use at(nodeid)
+//@   after getLeafIndex#1 use bit_test(LPP(st)[result0/64], int(result0)%64)
+//@   after getLeafIndex#1 use rank1_le_ones(LPP(st), int(result0))
+//@   after getLeafIndex#1 use rank1_range(LPP(st), int(result0))
+//@   before "from, to := bitmap.Select32R64" use at(ithPref, ithPref + 1)
+//@   ensures int(qr.ithLeaf) == leaf_ord(st, int(nodeid)) && 0 <= qr.ithLeaf && int(qr.ithLeaf) < nL(st)
+//@   ensures qr.hasLeafPrefix == has_tail(st, int(qr.ithLeaf))
+//@   ensures qr.hasLeafPrefix ==> sameslice(qr.leafPrefix, st.inner.LeafPrefixes.Bytes[tail_lo(st, int(qr.ithLeaf)):tail_hi(st, int(qr.ithLeaf))])
+
+//@ func (*VLenArray).get
+//@   property C01 C04 C14
+//@   requires wf_vlen(va) && 0 <= index && index < va.N
+//@   use rank1_le_ones(va.PresenceBM.Words, int(index))
+//@   use rank1_range(va.PresenceBM.Words, int(index))
+//@   use bit_test(va.PresenceBM.Words[index/64], int(index)%64)
+//@   before "from := ithElt * va.FixedSize" use mul_mono(int(ithElt), ones(va.PresenceBM.Words) - 1, int(va.FixedSize))
+//@   before "from := ithElt * va.FixedSize" use mul_mono(int(ithElt) + 1, ones(va.PresenceBM.Words), int(va.FixedSize))
+//@   before "from, to := bitmap.Select32R64" use at(ithElt, ithElt + 1)
+//@   ensures bitat(va.PresenceBM.Words, index) == 0 ==> len(result) == 0
+//@   ensures bitat(va.PresenceBM.Words, index) == 1 && va.PositionBM == nil ==>
+//@       sameslice(result, va.Bytes[rank1(va.PresenceBM.Words, index)*int(va.FixedSize) : (rank1(va.PresenceBM.Words, index)+1)*int(va.FixedSize)])
+//@   ensures bitat(va.PresenceBM.Words, index) == 1 && va.PositionBM != nil ==>
+//@       sameslice(result, va.Bytes[select1(va.PositionBM.Words, rank1(va.PresenceBM.Words, index)) : select1(va.PositionBM.Words, rank1(va.PresenceBM.Words, index)+1)])
+
+//@ define has_step(st *SlimTrie, t int) = st.inner.InnerPrefixes.EltCnt > 0 && bitat(st.inner.InnerPrefixes.PresenceBM.Words, t) == 1
+
 //@ func (*SlimTrie).getNode
 //@   property C01 C03 C10
-//@   requires wf_core(st) && wf_iprefix(st) && qr != nil
+//@   requires wf_core(st) && wf_iprefix(st) && wf_lprefix(st) && qr != nil
 //@   requires 0 <= nodeId && int(nodeId) < nN(st)
-//@   requires bitat(NTW(st), nodeId) == 1
 //@   modifies *qr
 //@   split nS(st) 0 10
 //@   use rank1_le_ones(NTW(st), int(nodeId))
@@ -100,10 +159,82 @@ package trie
 //@   after Rank64#1 use bit_test(st.inner.InnerPrefixes.PresenceBM.Words[result0/64], int(result0)%64)
 //@   after Rank64#2 use mul_small(int(st.vars.ShortMinusInner), int(result0))
 //@   at "qr.from = vars.BigInnerOffset" assert int(qr.from) == from_of(st, int(qr.ithInner)) && 0 <= qr.from
-//@   at "qr.to = qr.from + ns.ShortSize" assert int(qr.to) <= 64*len(INW(st))
+//@   at "qr.to = qr.from + ns.ShortSize" assert int(qr.to) <= 64*len(INW(st)) && qr.from < qr.to
+//@   at "qr.to = qr.from + bigInnerSize" assert int(qr.to) <= 64*len(INW(st)) && 0 <= qr.from && int(qr.from) == from_of(st, int(qr.ithInner))
+//@   at "qr.to = qr.from + innerSize" assert int(qr.to) <= 64*len(INW(st))
 //@   at "bm = (w >> uint32(j)) & vars.ShortMask" assert (bm & ^mask(nS(st))) == 0
 //@   at "bm = (w >> uint32(j)) | (w2" assert (bm & ^mask(nS(st))) == 0
 //@   before "qr.bm = uint64(ns.ShortTable[bm])" use u2i_le_mask(bm, nS(st))
 //@   after Rank128#1 use at(result0, result0 + 1)
-//@   ensures qr.isInner == 1 && int(qr.ithInner) == rank1(NTW(st), nodeId)
-//@   ensures int(qr.from) == from_of(st, int(qr.ithInner)) && int(qr.to) == int(qr.from) + size_of(st, int(qr.ithInner))
+//@   ensures int(qr.isInner) == bitat(NTW(st), nodeId) && int(qr.ithInner) == rank1(NTW(st), nodeId)
+//@   ensures qr.key == old(qr.key) && qr.keyBitLen == old(qr.keyBitLen)
+//@   ensures qr.isInner == 1 ==> 0 <= qr.ithInner && int(qr.ithInner) < nI(st)
+//@   ensures qr.isInner == 1 ==> int(qr.from) == from_of(st, int(qr.ithInner)) && int(qr.to) == int(qr.from) + size_of(st, int(qr.ithInner))
+//@   ensures qr.isInner == 1 ==> 0 <= qr.from && qr.from < qr.to && int(qr.to) <= 64*len(INW(st))
+//@   ensures qr.isInner == 1 ==> int(qr.wordSize) == ite(int(qr.ithInner) < nB(st), 8, 4)
+//@   ensures qr.isInner == 1 ==> qr.hasLeafPrefix == old(qr.hasLeafPrefix)
+//@   ensures qr.isInner == 1 ==> qr.hasInnerPrefix == (has_step(st, int(qr.ithInner)) && st.inner.InnerPrefixes.PositionBM != nil)
+//@   ensures qr.isInner == 1 && !has_step(st, int(qr.ithInner)) ==> qr.innerPrefixLen == 0
+//@   ensures qr.isInner == 1 && !qr.hasInnerPrefix ==> 0 <= qr.innerPrefixLen && qr.innerPrefixLen <= 262140 && qr.innerPrefixLen%4 == 0
+//@   ensures qr.isInner == 1 && has_step(st, int(qr.ithInner)) && st.inner.InnerPrefixes.PositionBM == nil ==>
+//@       int(qr.innerPrefixLen) == decstep(st.inner.InnerPrefixes.Bytes, 2*rank1(st.inner.InnerPrefixes.PresenceBM.Words, qr.ithInner))
+//@   ensures qr.hasInnerPrefix ==> len(qr.innerPrefix) >= 1 && int(qr.innerPrefixLen) == bitstr_len(qr.innerPrefix)
+//@   ensures qr.hasInnerPrefix ==> qr.innerPrefixLen%4 == 0 && 0 <= qr.innerPrefixLen && qr.innerPrefixLen <= 800000000
+//@   ensures qr.isInner == 1 && is_short(st, int(qr.ithInner)) ==> rank1(INW(st), qr.from) + popcnt64(qr.bm) < nN(st)
+//@   ensures qr.isInner == 1 ==> rank1(INW(st), qr.from) >= int(nodeId)
+//@   ensures qr.hasInnerPrefix ==> sameslice(qr.innerPrefix, st.inner.InnerPrefixes.Bytes[
+//@       select1(st.inner.InnerPrefixes.PositionBM.Words, rank1(st.inner.InnerPrefixes.PresenceBM.Words, qr.ithInner)) :
+//@       select1(st.inner.InnerPrefixes.PositionBM.Words, rank1(st.inner.InnerPrefixes.PresenceBM.Words, qr.ithInner) + 1)])
+//@   ensures qr.isInner == 0 ==> int(qr.ithLeaf) == leaf_ord(st, int(nodeId)) && 0 <= qr.ithLeaf && int(qr.ithLeaf) < nL(st)
+//@   ensures qr.isInner == 0 ==> qr.hasLeafPrefix == has_tail(st, int(qr.ithLeaf))
+//@   ensures qr.isInner == 0 && qr.hasLeafPrefix ==> sameslice(qr.leafPrefix, st.inner.LeafPrefixes.Bytes[tail_lo(st, int(qr.ithLeaf)):tail_hi(st, int(qr.ithLeaf))])
+
+//@ func (*SlimTrie).getLeftChildID
+//@   property C01 C02 C03 C09 C10
+//@   requires wf_core(st) && qr != nil && keyBitIdx >= 0 && int(qr.keyBitLen) == 8*len(qr.key)
+//@   requires 0 <= qr.from && qr.from < qr.to && int(qr.to) <= 64*len(INW(st))
+//@   requires (qr.wordSize == 8 && qr.to - qr.from == 257) || (qr.wordSize == 4 && (qr.to - qr.from == 17 || (int(qr.to - qr.from) == nS(st) && nS(st) >= 1)))
+//@   ensures int(qr.to - qr.from) != nS(st) ==> int(result0) == rank1(INW(st), int(qr.from) + labelidx(qr.key, int(qr.keyBitLen), int(qr.wordSize), int(keyBitIdx)))
+//@   ensures int(qr.to - qr.from) != nS(st) ==> int(result1) == bitat(INW(st), int(qr.from) + labelidx(qr.key, int(qr.keyBitLen), int(qr.wordSize), int(keyBitIdx)))
+//@   ensures int(qr.to - qr.from) == nS(st) ==> int(result0) == rank1(INW(st), qr.from) + popcnt64(qr.bm & mask(labelidx(qr.key, int(qr.keyBitLen), int(qr.wordSize), int(keyBitIdx))))
+//@   ensures int(qr.to - qr.from) == nS(st) ==> int(result1) == bitof(qr.bm, labelidx(qr.key, int(qr.keyBitLen), int(qr.wordSize), int(keyBitIdx)))
+//@   ensures result1 == 0 || result1 == 1
+//@   ensures 0 <= labelidx(qr.key, int(qr.keyBitLen), int(qr.wordSize), int(keyBitIdx))
+//@   ensures int(qr.to - qr.from) != nS(st) ==> int(qr.from) + labelidx(qr.key, int(qr.keyBitLen), int(qr.wordSize), int(keyBitIdx)) < int(qr.to)
+//@   ensures int(qr.to - qr.from) == nS(st) ==> labelidx(qr.key, int(qr.keyBitLen), int(qr.wordSize), int(keyBitIdx)) <= 16
+
+//@ func (*SlimTrie).getLeaf
+//@   property C01 C10
+//@   requires wf_core(st) && wf_leaves(st) && st.encoder != nil
+//@   requires 0 <= nodeid && int(nodeid) < nN(st) && bitat(NTW(st), nodeid) == 0
+//@   use rank1_range(NTW(st), int(nodeid))
+//@   use at(nodeid)
+//@   ensures st.inner.Leaves == nil ==> result == nil
+
+//@ func (*SlimTrie).getIthLeaf
+//@   property C01 C10
+//@   requires wf_leaves(st) && st.inner != nil && 0 <= ith && int(ith) < nL(st) && (st.inner.Leaves != nil ==> st.encoder != nil)
+//@   ensures st.inner.Leaves == nil ==> result == nil
+
+//@ func (*SlimTrie).getIthLeafBytes
+//@   property C04 C10
+//@   requires wf_leaves(st) && st.inner != nil && 0 <= ith && int(ith) < nL(st)
+//@   ensures st.inner.Leaves == nil ==> len(result) == 0
+
+//@ predicate wf_query(st *SlimTrie) = st.inner != nil && (st.inner.NodeTypeBM != nil ==> wf_core(st) && wf_iprefix(st) && wf_lprefix(st))
+
+//@ func (*SlimTrie).GetID
+//@   property C01 C03 C10
+//@   requires wf_query(st) && len(key) <= 100000000
+//@   loop 1 invariant 0 <= eqID && int(eqID) < nN(st) && 0 <= i && i <= l + 4 && i%4 == 0
+//@   loop 1 invariant qr != nil && qr.key == key && qr.keyBitLen == l && int(l) == 8*len(key)
+//@   loop 1 decreases nN(st) - int(eqID)
+//@   after getLeftChildID#1 use rank1_le_ones(INW(st), int(qr.from) + labelidx(qr.key, int(qr.keyBitLen), int(qr.wordSize), int(i)))
+//@   after getLeftChildID#1 use rank1_mono(INW(st), int(qr.from), int(qr.from) + labelidx(qr.key, int(qr.keyBitLen), int(qr.wordSize), int(i)))
+//@   after getLeftChildID#1 use popcnt_bit_le(qr.bm, labelidx(qr.key, int(qr.keyBitLen), int(qr.wordSize), int(i)))
+//@   after getLeftChildID#1 use popcnt_mask_le(qr.bm, labelidx(qr.key, int(qr.keyBitLen), int(qr.wordSize), int(i)))
+//@   after getLeftChildID#1 assert int(qr.to - qr.from) != nS(st) ==> int(qr.from) + labelidx(qr.key, int(qr.keyBitLen), int(qr.wordSize), int(i)) < int(qr.to)
+//@   after getLeftChildID#1 assert result1 == 1 ==> int(result0) + 1 < nN(st)
+//@   after getLeftChildID#1 assert int(result0) >= int(eqID)
+//@   ensures st.inner.NodeTypeBM == nil ==> result == -1
+//@   ensures result == -1 || (0 <= result && int(result) < nN(st))
